@@ -85,15 +85,24 @@ def r04a(model: Model, rr: RuleResult):
         rr.ok(f"generate_fea emits only: {sorted(k for k in kinds if k)}")
     w = model.func("write_glyphmap", "_glyphmappings")
     y = [c for c in calls_in(w) if norm(c.func) == "GlyphMapping"]
-    if y and norm(y[0].args[-1]) == "glyph_name(cps)" and norm(y[0].args[-2]) == "cps":
+    def _gm_arg(c, name, from_end):
+        for k_ in c.keywords:
+            if k_.arg == name:
+                return k_.value
+        return c.args[from_end] if len(c.args) >= -from_end and not c.keywords else None
+    gm_cps = _gm_arg(y[0], "codepoints", -2) if y else None
+    gm_name = _gm_arg(y[0], "glyph_name", -1) if y else None
+    if y and gm_cps is not None and gm_name is not None and norm(gm_name) == "glyph_name(cps)" and norm(gm_cps) == "cps":
         cfg = cfg_of(w)
         d = cfg.reaching(cfg.node_for(y[0]), "cps")
         if d and all("codepoints.from_filename(source_stem)" in norm(x.value) for x in d):
             rr.ok("glyph map row: codepoints from the file name, glyph name from those codepoints")
         else:
             rr.bad(w, y[0], "glyph map codepoints do not come from the source file's name", construct="_glyphmappings: cps")
-    else:
+    elif y and gm_name is not None and gm_cps is not None and isinstance(gm_name, ast.Call) and callee_tail(gm_name) == "glyph_name" and norm(gm_name.args[0]) != norm(gm_cps):
         rr.bad(w, w.node, "glyph map rows are not GlyphMapping(files, cps, glyph_name(cps))", construct="_glyphmappings: GlyphMapping")
+    else:
+        rr.bad_shape(w, w.node, "glyph map rows are not GlyphMapping(files, cps, glyph_name(cps))", construct="_glyphmappings: GlyphMapping")
 
 
 def _len_predicate(test: ast.AST) -> Optional[Tuple[str, Set[int]]]:
@@ -252,7 +261,17 @@ def r04c(model: Model, rr: RuleResult):
         rr.bad(g, g.node, "the '.notdef is first' assertion is gone", construct="_generate_color_font: assert")
     # gid bookkeeping: existing name -> its index, else appended; ufo.glyphOrder = glyph_order; ids asserted
     t = " ".join(norm(st) for st in ast.walk(g.node) if isinstance(st, (ast.Assign, ast.Expr)))
-    if "gid = glyph_order.index(glyph_input.glyph_name)" in t and "gid = len(glyph_order)" in t and "glyph_order.append(glyph_input.glyph_name)" in t and "ufo.glyphOrder = glyph_order" in t:
+    stm = [norm(st) for st in ast.walk(g.node) if isinstance(st, (ast.Assign, ast.Expr))]
+    # the glyph id variable, by role: whatever name is handed to ColorGlyph.create as glyph_id
+    from ..model import arg as _arg4
+    _cr = [c for c in calls_in(g) if norm(c.func) == "ColorGlyph.create"]
+    _ga = _arg4(_cr[0], 3, "glyph_id") if _cr else None
+    G = _ga.id if isinstance(_ga, ast.Name) else "gid"
+    new_first = f"{G} = len(glyph_order)" in stm and "glyph_order.append(glyph_input.glyph_name)" in stm \
+        and stm.index(f"{G} = len(glyph_order)") < stm.index("glyph_order.append(glyph_input.glyph_name)")
+    new_after = f"{G} = len(glyph_order) - 1" in stm and "glyph_order.append(glyph_input.glyph_name)" in stm \
+        and stm.index("glyph_order.append(glyph_input.glyph_name)") < stm.index(f"{G} = len(glyph_order) - 1")
+    if f"{G} = glyph_order.index(glyph_input.glyph_name)" in t and (new_first or new_after) and "ufo.glyphOrder = glyph_order" in t:
         rr.ok("glyph ids: index of an existing name, else appended at the end; UFO glyph order assigned from that list")
     else:
         rr.bad_shape(g, g.node, "glyph id bookkeeping changed", construct="_generate_color_font: gid bookkeeping")
@@ -260,7 +279,7 @@ def r04c(model: Model, rr: RuleResult):
     from ..model import arg as _arg
     got = [(_arg(cr[0], i, nm)) for i, nm in ((3, "glyph_id"), (4, "ufo_glyph_name"), (5, "codepoints"), (6, "svg"))] if cr else []
     gt = [norm(x) if x is not None else None for x in got]
-    if cr and gt[1:] == ["glyph_input.glyph_name", "glyph_input.codepoints", "glyph_input.svg"] and gt[0] == "gid":
+    if cr and gt[1:] == ["glyph_input.glyph_name", "glyph_input.codepoints", "glyph_input.svg"] and gt[0] == G:
         rr.ok("ColorGlyph.create(gid, glyph name, codepoints, svg) of the same input")
     elif cr and gt[1:] == ["glyph_input.glyph_name", "glyph_input.codepoints", "glyph_input.svg"]:
         rr.bad_shape(g, g.node, "ColorGlyph.create does not receive the gid/name/codepoints/svg of one input", construct="ColorGlyph.create args")
@@ -299,13 +318,25 @@ def r04d(model: Model, rr: RuleResult):
     ok2 = False
     extra_guard = None
     from ..guards import value_cases
+    from ..guards import canon_fact as _cf4
+
+    def _canon(fs):
+        out = []
+        for t_, pol_ in fs:
+            try:
+                out.append(_cf4(ast.parse(t_, mode="eval").body, pol_))
+            except SyntaxError:
+                out.append((t_, pol_))
+        return out
+    VB = _canon([("view_box is not None", True)])[0]
     for st in w:
         for v, facts in value_cases(cfg, st):
             if "_advance_width(view_box, font_config)" not in norm(v):
                 continue
-            ok2 = facts == [("view_box is not None", True)]
-            if not ok2 and ("view_box is not None", True) in facts:
-                extra_guard = (st, [f for f in facts if f != ("view_box is not None", True)])
+            facts = _canon(facts)
+            ok2 = facts == [VB]
+            if not ok2 and VB in facts:
+                extra_guard = (st, [f for f in facts if f != VB])
     if ok2:
         rr.ok("ColorGlyph.create applies the advance rule whenever a viewBox (or bitmap size) is known")
     elif extra_guard is not None:
